@@ -6,7 +6,7 @@ From Coq Require Import List ZArith Bool Permutation.
 From LJT Require Import model.MemMgr model.TjInit model.DestBuf model.VirtAccess model.MemCfg gen.GenMemConst
   proofs.MemMgrProofs proofs.MemMgrWrap proofs.MemMgrLimits proofs.TjInitProofs proofs.DestBufProofs
   proofs.VirtAccessProofs proofs.MemMgrGeom proofs.MemMgrExamples.
-From LJT Require Import model.TjAlloc model.SizeExpr gen.GenTjAlloc proofs.SizeExprProofs proofs.TjAllocProofs.
+From LJT Require Import model.TjAlloc model.SizeExpr gen.GenTjAlloc proofs.SizeExprProofs proofs.TjAllocProofs proofs.TjAllocEpilogue.
 Import ListNotations.
 Local Open Scope Z_scope.
 
@@ -292,6 +292,27 @@ Theorem C14_tj_alloc_choice_points_covered :
 Proof. exact choice_points_bound. Qed.
 Print Assumptions C14_tj_alloc_choice_points_covered.
 
+(* (10b) the calls inside the bailout epilogues, which (10) takes as non-failing: the generated list contains only releases,
+   abort/destroy-like calls and term_destination; the facts read from the callees' sources hold; and free_pool on a valid
+   pool (all that jpeg_abort / jpeg_destroy run) never raises an error in the memory-manager model *)
+Theorem C14_tj_epilogue_calls_cannot_fail :
+  (forall e, In e tj_epilogue_calls -> e = ERelease \/ e = EAbortLike \/ e = ETerm) /\
+  (forall b, In b tj_epilogue_callee_facts -> b = true) /\
+  (forall c m h, snd (free_pool c m h 1) = None /\ snd (free_pool c m h 0) = None).
+Proof. exact epilogue_calls_cannot_fail. Qed.
+Print Assumptions C14_tj_epilogue_calls_cannot_fail.
+
+(* the instance-owned ICC buffers are among the generated programs of (10): tj3Destroy (releases both members, nothing may
+   remain), tj3DecompressHeader (out-parameter acquisition + ownership move after freeing the old buffer), tj3GetICCProfile
+   (hand-over to the caller) *)
+Theorem C14_tj_icc_owner_programs_generated :
+  existsb (fun p => p_destroys p && (2 <=? length (p_owned p))%nat) tj_progs = true /\
+  existsb (fun p => existsb (fun i => match i with I (BAcquireOut _) => true | _ => false end) (p_body p) &&
+                    existsb (fun i => match i with I (BMove _ _) => true | _ => false end) (p_body p)) tj_progs = true /\
+  existsb (fun p => existsb (fun i => match i with I (BEscape _) => true | _ => false end) (p_body p)) tj_progs = true.
+Proof. exact icc_owner_programs_generated. Qed.
+Print Assumptions C14_tj_icc_owner_programs_generated.
+
 (* (11) the size expression of every malloc site (generated) evaluates in C (size_t / unsigned arithmetic) to its integer
    value -- no wrap -- for all values of its variables within the stated bounds *)
 Theorem C14_tj_malloc_sizes_do_not_wrap : forall e env, In e tj_size_exprs -> env_ok tj_size_bounds env ->
@@ -307,6 +328,9 @@ Print Assumptions C14_size_interval_analysis_sound.
 (* ------------------------------------------------------------ non-vacuity *)
 Example C14_ex_tj_alloc_checker_rejects : check broken1 = false /\ check broken2 = false /\ check broken3 = false.
 Proof. exact broken_rejected. Qed.
+
+Example C14_ex_icc_checker_rejects : check broken_icc1 = false /\ check broken_icc2 = false.
+Proof. exact broken_icc_rejected. Qed.
 
 Example C14_ex_size_exprs : (20 <=? length tj_size_exprs)%nat = true /\
   fits tj_size_bounds (SMul 32 (SVar 1) (SVar 1)) = false.
